@@ -2,8 +2,9 @@
   C07 — a molecular grid is the weighted concatenation of its atomic grids.
 
   Model: `Model/MolGrid.lean` (hand-written, tied by correspondence, harness/props/c07.py);
-  selection logic and call sites of the convenience constructors: `Gen/MolGrid.lean`
-  (regenerated from /repo on every run). Helper lemmas: `Lemmas/MolGrid.lean`.
+  selection logic and call sites of the convenience constructors, and (round 2) the constructor
+  `__init__`, `get_atomic_grid`, `__getitem__` statement by statement: `Gen/MolGrid.lean`
+  (regenerated from /repo on every run; `gen_*_eq_model` tie it to the hand model). Helper lemmas: `Lemmas/MolGrid.lean`.
 
   All theorems: any point type `P`, any number of atoms and any atomic grids (the components
   `AtomGrid`, `BeckeWeights` are given: C05, C06), callable or array aim weights, `store` on
@@ -24,14 +25,39 @@ variable {α P K R S Rot Sz Rad RS DS SS : Type}
 
 /-! ### concatenation, index table -/
 
+/-- Shape facts of a successful construction (no assumption on the atomic grids): the index
+table has one entry more than there are atoms, starts at 0, is monotone, ends at the grid size;
+`points`, `atweights` have the grid's size, `atcoords` one row per atom. -/
+theorem molgrid_shape [Add K] [Mul K] [NatCast K] {atnums : List Nat}
+    {atgrids : List (AtGrid P K)} {aim : AimArg P K} {store : Bool} {m : MolGrid P K}
+    (h : MolGrid.init atnums atgrids aim store = .ok m) :
+    m.indices.length = atgrids.length + 1 ∧ m.indices.Pairwise (· ≤ ·) ∧
+    m.indices[0]? = some 0 ∧ m.indices.getLast? = some m.size ∧
+    m.points.length = m.size ∧ m.atweights.length = m.size ∧ m.atcoords.length = atgrids.length := by
+  have sp := init_spec h
+  have hsize : m.size = (atgrids.map AtGrid.size).sum := by
+    unfold MolGrid.size
+    rw [mulBroadcast_length sp.weights, sp.atweights, flatten_weights_length]
+  refine ⟨?_, ?_, ?_, ?_, ?_, ?_, ?_⟩
+  · rw [sp.indices, indexTable_length, List.length_map]
+  · rw [sp.indices]; exact prefixSums_pairwise 0 _
+  · rw [sp.indices]; exact indexTable_head _
+  · rw [sp.indices, indexTable_last, hsize]
+  · rw [sp.points, flatten_points_length _ sp.fits, hsize]
+  · rw [sp.atweights, flatten_weights_length, hsize]
+  · rw [sp.atcoords, List.length_map]
+
 /-- **Clause 1 (points in order, delimited by the index table).** After a successful
 construction the index table has one entry more than there are atoms, starts at 0, is
 monotone, ends at the grid size; and for every atom `k` the Python slices
 `points[indices[k]:indices[k+1]]`, `atweights[indices[k]:indices[k+1]]` are exactly the atomic
-grid's points and weights, `atcoords[k]` its centre. -/
+grid's points and weights, `atcoords[k]` its centre. `hwf` — every atomic grid has as many points
+as weights — is what `Grid.__init__` guarantees for every grid object (a duck-typed object with a
+single point and several weights is *not* rejected by the constructor: NumPy broadcasts the point
+over the segment, `AtGrid.segPoints`; see `gen_init_eq_model`). -/
 theorem molgrid_slices [Add K] [Mul K] [NatCast K] {atnums : List Nat}
     {atgrids : List (AtGrid P K)} {aim : AimArg P K} {store : Bool} {m : MolGrid P K}
-    (h : MolGrid.init atnums atgrids aim store = .ok m) :
+    (h : MolGrid.init atnums atgrids aim store = .ok m) (hwf : ∀ g ∈ atgrids, g.WF) :
     m.indices.length = atgrids.length + 1 ∧ m.indices.Pairwise (· ≤ ·) ∧
     m.indices[0]? = some 0 ∧ m.indices.getLast? = some m.size ∧
     m.points.length = m.size ∧ m.atweights.length = m.size ∧ m.atcoords.length = atgrids.length ∧
@@ -41,23 +67,14 @@ theorem molgrid_slices [Add K] [Mul K] [NatCast K] {atnums : List Nat}
       pySlice m.atweights a b = atgrids[k].weights ∧
       m.atcoords[k]? = some atgrids[k].center := by
   have sp := init_spec h
-  have hsize : m.size = (atgrids.map AtGrid.size).sum := by
-    unfold MolGrid.size
-    rw [mulBroadcast_length sp.weights, sp.atweights, flatten_weights_length]
+  obtain ⟨s1, s2, s3, s4, s5, s6, s7⟩ := molgrid_shape h
   have hlw : (atgrids.map AtGrid.weights).map length = atgrids.map AtGrid.size := by
     rw [List.map_map]; rfl
   have hlp : (atgrids.map AtGrid.points).map length = atgrids.map AtGrid.size := by
     rw [List.map_map]
     apply List.map_congr_left
-    intro g hg; exact sp.wf g hg
-  refine ⟨?_, ?_, ?_, ?_, ?_, ?_, ?_, ?_⟩
-  · rw [sp.indices, indexTable_length, List.length_map]
-  · rw [sp.indices]; exact prefixSums_pairwise 0 _
-  · rw [sp.indices]; exact indexTable_head _
-  · rw [sp.indices, indexTable_last, hsize]
-  · rw [sp.points, flatten_points_length _ sp.wf, hsize]
-  · rw [sp.atweights, flatten_weights_length, hsize]
-  · rw [sp.atcoords, List.length_map]
+    intro g hg; exact hwf g hg
+  refine ⟨s1, s2, s3, s4, s5, s6, s7, ?_⟩
   · intro k hk
     have hk1 : k < (atgrids.map AtGrid.size).length := by simpa using hk
     refine ⟨((atgrids.map AtGrid.size).take k).sum, ((atgrids.map AtGrid.size).take (k + 1)).sum,
@@ -66,7 +83,7 @@ theorem molgrid_slices [Add K] [Mul K] [NatCast K] {atnums : List Nat}
     · rw [sp.indices]; exact indexTable_getElem? _ (k + 1) (by omega)
     · rw [List.sum_take_succ _ k hk1]; omega
     · rw [List.sum_take_succ _ k hk1, List.getElem_map]
-    · rw [sp.points, ← hlp]
+    · rw [sp.points, map_segPoints_of_wf _ hwf, ← hlp]
       have := slice_flatten (atgrids.map AtGrid.points) k (by simpa using hk)
       rw [this, List.getElem_map]
     · rw [sp.atweights, ← hlw]
@@ -109,9 +126,9 @@ theorem aim_array_size [Add K] [Mul K] [NatCast K] (atnums : List Nat)
     (atgrids : List (AtGrid P K)) (a : List K) (store : Bool) :
     (∀ m, MolGrid.init atnums atgrids (.array a) store = .ok m →
       m.aimWeights = a ∧ a.length = m.size) ∧
-    (atgrids ≠ [] → (∀ g ∈ atgrids, g.WF) → a.length ≠ (atgrids.map AtGrid.size).sum →
+    (atgrids ≠ [] → (∀ g ∈ atgrids, g.Fits) → a.length ≠ (atgrids.map AtGrid.size).sum →
       MolGrid.init atnums atgrids (.array a) store = .error .valueError) ∧
-    (atgrids ≠ [] → (∀ g ∈ atgrids, g.WF) →
+    (atgrids ≠ [] → (∀ g ∈ atgrids, g.Fits) →
       MolGrid.init atnums atgrids (AimArg.other : AimArg P K) store = .error .typeError) := by
   refine ⟨fun m h => ?_, fun hne hw hl => ?_, fun hne hw => ?_⟩
   · have sp := init_spec h
@@ -204,13 +221,13 @@ theorem init_store_false [Add K] [Mul K] [NatCast K] (atnums : List Nat)
   by_cases he : atgrids.isEmpty = true
   · simp only [he, ↓reduceIte]; rfl
   · simp only [he, Bool.false_eq_true, ↓reduceIte]
-    by_cases hw : ∀ g ∈ atgrids, g.WF
+    by_cases hw : ∀ g ∈ atgrids, g.Fits
     · rw [if_neg (not_not.mpr hw), if_neg (not_not.mpr hw)]
       cases aim with
       | callable f =>
         simp only
         cases mulBroadcast (atgrids.map AtGrid.weights).flatten
-            (f (atgrids.map AtGrid.points).flatten (atgrids.map AtGrid.center) atnums
+            (f (atgrids.map AtGrid.segPoints).flatten (atgrids.map AtGrid.center) atnums
               (indexTable (atgrids.map AtGrid.size))) <;> rfl
       | array a =>
         simp only
@@ -248,11 +265,12 @@ theorem store_independent [Add K] [Mul K] [NatCast K] (atnums : List Nat)
 weights** and its centre; an `AtomGrid` object iff stored. -/
 theorem getAtomicGrid_spec [Add K] [Mul K] [NatCast K] {atnums : List Nat}
     {atgrids : List (AtGrid P K)} {aim : AimArg P K} {store : Bool} {m : MolGrid P K}
-    (h : MolGrid.init atnums atgrids aim store = .ok m) (k : Nat) (hk : k < atgrids.length) :
+    (h : MolGrid.init atnums atgrids aim store = .ok m) (hwf : ∀ g ∈ atgrids, g.WF)
+    (k : Nat) (hk : k < atgrids.length) :
     ∃ g, m.getAtomicGrid (k : Int) = .ok g ∧ g.points = atgrids[k].points ∧
       g.weights = atgrids[k].weights ∧ g.center = atgrids[k].center ∧ g.isAtom = store := by
   have sp := init_spec h
-  obtain ⟨hlen, -, -, -, -, -, hcl, hsl⟩ := molgrid_slices h
+  obtain ⟨hlen, -, -, -, -, -, hcl, hsl⟩ := molgrid_slices h hwf
   obtain ⟨a, b, ha, hb, -, -, hp, hw, hc⟩ := hsl k hk
   unfold MolGrid.getAtomicGrid
   have hneg : ¬ ((k : Int) < 0) := by omega
@@ -266,7 +284,9 @@ theorem getAtomicGrid_spec [Add K] [Mul K] [NatCast K] {atnums : List Nat}
   | false =>
     have hst : m.atgrids = none := by simpa using sp.stored
     rw [hst]
-    simp only [pyGet_succ, pyGet_nat, ha, hb, hc]
+    have hlw : (pySlice m.points a b).length = (pySlice m.atweights a b).length := by
+      rw [hp, hw]; exact hwf _ (List.getElem_mem _)
+    simp only [pyGet_succ, pyGet_nat, ha, hb, hc, ok_bind, mkLocalGrid_ok _ hlw]
     exact ⟨_, rfl, hp, hw, rfl, rfl⟩
 
 /-- `get_atomic_grid` rejects a negative index (`ValueError`) and an index beyond the last
@@ -277,7 +297,7 @@ theorem getAtomicGrid_errors [Add K] [Mul K] [NatCast K] {atnums : List Nat}
     (index < 0 → m.getAtomicGrid index = .error .valueError) ∧
     ((atgrids.length : Int) ≤ index → m.getAtomicGrid index = .error .indexError) := by
   have sp := init_spec h
-  obtain ⟨hlen, -, -, -, -, -, hcl, -⟩ := molgrid_slices h
+  obtain ⟨hlen, -, -, -, -, -, hcl⟩ := molgrid_shape h
   refine ⟨fun hn => ?_, fun hge => ?_⟩
   · unfold MolGrid.getAtomicGrid; simp only [hn, ↓reduceIte]; rfl
   · obtain ⟨k, rfl⟩ := Int.eq_ofNat_of_zero_le (by omega : 0 ≤ index)
@@ -310,7 +330,8 @@ raise the same exception. (The *type* differs by design: `AtomGrid` vs `LocalGri
 theorem getAtomicGrid_store_independent [Add K] [Mul K] [NatCast K] {atnums : List Nat}
     {atgrids : List (AtGrid P K)} {aim : AimArg P K} {m1 m2 : MolGrid P K}
     (h1 : MolGrid.init atnums atgrids aim true = .ok m1)
-    (h2 : MolGrid.init atnums atgrids aim false = .ok m2) (index : Int) :
+    (h2 : MolGrid.init atnums atgrids aim false = .ok m2) (hwf : ∀ g ∈ atgrids, g.WF)
+    (index : Int) :
     match m1.getAtomicGrid index, m2.getAtomicGrid index with
     | .ok g1, .ok g2 => g1.points = g2.points ∧ g1.weights = g2.weights ∧
         g1.center = g2.center ∧ g1.isAtom = true ∧ g2.isAtom = false
@@ -322,8 +343,8 @@ theorem getAtomicGrid_store_independent [Add K] [Mul K] [NatCast K] {atnums : Li
     · rw [(getAtomicGrid_errors h1 index).2 hge, (getAtomicGrid_errors h2 index).2 hge]
     · obtain ⟨k, rfl⟩ := Int.eq_ofNat_of_zero_le (by omega : 0 ≤ index)
       have hk : k < atgrids.length := by omega
-      obtain ⟨g1, e1, p1, w1, c1, t1⟩ := getAtomicGrid_spec h1 k hk
-      obtain ⟨g2, e2, p2, w2, c2, t2⟩ := getAtomicGrid_spec h2 k hk
+      obtain ⟨g1, e1, p1, w1, c1, t1⟩ := getAtomicGrid_spec h1 hwf k hk
+      obtain ⟨g2, e2, p2, w2, c2, t2⟩ := getAtomicGrid_spec h2 hwf k hk
       rw [e1, e2]
       exact ⟨by rw [p1, p2], by rw [w1, w2], by rw [c1, c2], t1, t2⟩
 
@@ -334,14 +355,14 @@ modes; the weights are the **raw atomic weights** when the grids are stored and 
 **aim-weighted** molecular weights `atweights·aim` of that segment when they are not. -/
 theorem getItem_spec [Add K] [Mul K] [NatCast K] {atnums : List Nat}
     {atgrids : List (AtGrid P K)} {aim : AimArg P K} {store : Bool} {m : MolGrid P K}
-    (h : MolGrid.init atnums atgrids aim store = .ok m)
+    (h : MolGrid.init atnums atgrids aim store = .ok m) (hwf : ∀ g ∈ atgrids, g.WF)
     (haim : m.aimWeights.length = m.size) (k : Nat) (hk : k < atgrids.length) :
     ∃ g a b, m.getItem (k : Int) = .ok g ∧ m.indices[k]? = some a ∧ m.indices[k + 1]? = some b ∧
       g.points = atgrids[k].points ∧ g.center = atgrids[k].center ∧ g.isAtom = store ∧
       g.weights = if store then atgrids[k].weights
         else zipWith (· * ·) atgrids[k].weights (pySlice m.aimWeights a b) := by
   have sp := init_spec h
-  obtain ⟨hlen, -, -, -, -, -, hcl, hsl⟩ := molgrid_slices h
+  obtain ⟨hlen, -, -, -, hpl, -, hcl, hsl⟩ := molgrid_slices h hwf
   obtain ⟨a, b, ha, hb, -, -, hp, hw, hc⟩ := hsl k hk
   unfold MolGrid.getItem
   cases store with
@@ -353,7 +374,9 @@ theorem getItem_spec [Add K] [Mul K] [NatCast K] {atnums : List Nat}
   | false =>
     have hst : m.atgrids = none := by simpa using sp.stored
     rw [hst]
-    simp only [pyGet_succ, pyGet_nat, ha, hb, hc]
+    have hlw : (pySlice m.points a b).length = (pySlice m.weights a b).length := by
+      rw [pySlice_length, pySlice_length, hpl]; rfl
+    simp only [pyGet_succ, pyGet_nat, ha, hb, hc, ok_bind, mkLocalGrid_ok _ hlw]
     refine ⟨_, a, b, rfl, rfl, rfl, hp, rfl, rfl, ?_⟩
     simp only [SubGrid.weights, Bool.false_eq_true, ↓reduceIte]
     rw [(weights_spec h haim).1, pySlice_zipWith, hw]
@@ -363,7 +386,7 @@ and the centre. -/
 theorem getItem_store_independent_partial [Add K] [Mul K] [NatCast K] {atnums : List Nat}
     {atgrids : List (AtGrid P K)} {aim : AimArg P K} {m1 m2 : MolGrid P K}
     (h1 : MolGrid.init atnums atgrids aim true = .ok m1)
-    (h2 : MolGrid.init atnums atgrids aim false = .ok m2)
+    (h2 : MolGrid.init atnums atgrids aim false = .ok m2) (hwf : ∀ g ∈ atgrids, g.WF)
     (haim : m1.aimWeights.length = m1.size) (k : Nat) (hk : k < atgrids.length) :
     ∃ g1 g2, m1.getItem (k : Int) = .ok g1 ∧ m2.getItem (k : Int) = .ok g2 ∧
       g1.points = g2.points ∧ g1.center = g2.center := by
@@ -371,8 +394,8 @@ theorem getItem_store_independent_partial [Add K] [Mul K] [NatCast K] {atnums : 
   rw [h1, h2] at hs
   have haim2 : m2.aimWeights.length = m2.size := by
     unfold MolGrid.size at *; rw [← hs.2.2.2.1, ← hs.2.1]; exact haim
-  obtain ⟨g1, _, _, e1, _, _, p1, c1, _, _⟩ := getItem_spec h1 haim k hk
-  obtain ⟨g2, _, _, e2, _, _, p2, c2, _, _⟩ := getItem_spec h2 haim2 k hk
+  obtain ⟨g1, _, _, e1, _, _, p1, c1, _, _⟩ := getItem_spec h1 hwf haim k hk
+  obtain ⟨g2, _, _, e2, _, _, p2, c2, _, _⟩ := getItem_spec h2 hwf haim2 k hk
   exact ⟨g1, g2, e1, e2, by rw [p1, p2], by rw [c1, c2]⟩
 
 /-- Non-vacuity of `h`, `haim`, `hk` (used by `integral_decomposes`, `getItem_spec`, …): the
@@ -389,7 +412,7 @@ stored" for `__getitem__`, at full strength (values `ℚ`, points in `ℚ³`): s
 centre **and same weights**. The code as it is violates it: `getItem_store_independent_fails_at`. -/
 def getItem_store_independent_full : Prop :=
   ∀ (atnums : List Nat) (atgrids : List (AtGrid (ℚ × ℚ × ℚ) ℚ)) (aim : AimArg (ℚ × ℚ × ℚ) ℚ)
-    (m1 m2 : MolGrid (ℚ × ℚ × ℚ) ℚ),
+    (m1 m2 : MolGrid (ℚ × ℚ × ℚ) ℚ), (∀ g ∈ atgrids, g.WF) →
     MolGrid.init atnums atgrids aim true = .ok m1 →
     MolGrid.init atnums atgrids aim false = .ok m2 →
     ∀ (k : Nat), k < atgrids.length → ∀ g1 g2, m1.getItem (k : Int) = .ok g1 →
@@ -414,7 +437,7 @@ theorem getItem_store_independent_fails_at : ¬ getItem_store_independent_full :
       .ok ⟨[(0, 0, 0), (0, 0, 0)], [1 / 2, 1 / 2], [1, 1], [1 / 2, 1 / 2],
         [(0, 0, -1), (0, 0, 1)], [0, 1, 2], none⟩ := by
     decide +kernel
-  have := hfull _ _ _ _ _ h1 h2 0 (by decide) (.atom ⟨[(0, 0, 0)], [1], (0, 0, -1)⟩)
+  have := hfull _ _ _ _ _ (by decide) h1 h2 0 (by decide) (.atom ⟨[(0, 0, 0)], [1], (0, 0, -1)⟩)
     (.localGrid [(0, 0, 0)] [1 / 2] (0, 0, -1)) (by decide +kernel) (by decide +kernel)
   have hw := this.2.2
   simp only [SubGrid.weights] at hw
@@ -817,5 +840,222 @@ theorem defaultRgrid_table_ok :
         y ∈ Gen.MolGrid.defaultRgridNpt.map Prod.fst := by
       decide +kernel
     exact this z (by omega) h
+
+/-! ### round 2: the constructor and the accessors as *generated* code
+
+`Gen.MolGrid.init_loop`, `Gen.MolGrid.init`, `Gen.MolGrid.getAtomicGrid`, `Gen.MolGrid.getItem` are
+translated statement by statement from the current `molgrid.py` (zero-initialised arrays, the
+`enumerate` loop with item / slice assignments, the aim-weights dispatch, `super().__init__`; the
+guards, `is None` branches, slices and `LocalGrid(...)` of the accessors). The theorems below
+tie them to the hand model for *all* inputs; a semantic change of the source inside the
+translator's vocabulary changes the generated definitions and breaks these proofs, a change
+outside the vocabulary makes the translator raise. -/
+
+/-- One turn of the constructor's loop (generated `init_loop`) on the loop invariant `loopState`:
+atom number `len(d)` with grid `g`, `r` atoms and `z` points still to come. The centre goes to
+`_atcoords[i]`, `_indices[i+1]` becomes the running sum, the two slice assignments fill exactly
+the next `g.size` cells — or NumPy raises `ValueError` when the points do not fit the segment. -/
+theorem init_loop_step [NatCast K] (zeroRow : P) (d : List (AtGrid P K)) (hd : ∀ g ∈ d, g.Fits)
+    (g : AtGrid P K) (r z : Nat) :
+    Gen.MolGrid.init_loop d.length g (loopState zeroRow d (r + 1) (g.size + z)).1
+      (loopState zeroRow d (r + 1) (g.size + z)).2.1 (loopState zeroRow d (r + 1) (g.size + z)).2.2.1
+      (loopState zeroRow d (r + 1) (g.size + z)).2.2.2 =
+    if g.Fits then .ok (loopState zeroRow (d ++ [g]) r z) else .error .valueError := by
+  have hT : (indexTable (d.map AtGrid.size)).length = d.length + 1 := by
+    rw [indexTable_length, List.length_map]
+  have hC : (d.map AtGrid.center).length = d.length := List.length_map _
+  have hS : (indexTable (d.map AtGrid.size))[d.length]? = some (d.map AtGrid.size).sum := by
+    have := indexTable_getElem? (d.map AtGrid.size) d.length (by simp)
+    rwa [List.take_of_length_le (by simp)] at this
+  -- 1. atcoords[i] = center
+  have h1 : pySetItem (d.map AtGrid.center ++ replicate (r + 1) zeroRow) (d.length : Int) g.center =
+      .ok ((d ++ [g]).map AtGrid.center ++ replicate r zeroRow) := by
+    rw [pySetItem_nat_lt _ _ _ (by simp)]
+    congr 1
+    have := set_append_replicate (d.map AtGrid.center) r zeroRow g.center
+    rw [hC] at this
+    rw [this]; simp
+  -- 2. indices
+  have h2 : pyGet (indexTable (d.map AtGrid.size) ++ replicate (r + 1) 0) ((d.length : Int) + 1) = .ok 0 := by
+    rw [pyGet_succ, pyGet_nat]
+    have := getElem?_append_replicate (indexTable (d.map AtGrid.size)) r 0
+    rw [hT] at this
+    rw [this]
+  have h3 : pyGet (indexTable (d.map AtGrid.size) ++ replicate (r + 1) 0) (d.length : Int) =
+      .ok (d.map AtGrid.size).sum := by
+    rw [pyGet_nat, List.getElem?_append_left (by omega), hS]
+  have h4 : pySetItem (indexTable (d.map AtGrid.size) ++ replicate (r + 1) 0) ((d.length : Int) + 1)
+      (0 + ((d.map AtGrid.size).sum + g.size)) =
+      .ok (indexTable ((d ++ [g]).map AtGrid.size) ++ replicate r 0) := by
+    rw [pySetItem_succ, pySetItem_nat_lt _ _ _ (by simp; omega)]
+    congr 1
+    have := set_append_replicate (indexTable (d.map AtGrid.size)) r 0 (0 + ((d.map AtGrid.size).sum + g.size))
+    rw [hT] at this
+    rw [this, List.map_append, List.map_cons, List.map_nil, indexTable_append_singleton, Nat.zero_add]
+  have hT' : (indexTable ((d ++ [g]).map AtGrid.size)).length = d.length + 2 := by
+    rw [indexTable_length, List.length_map, List.length_append]; rfl
+  have h5 : pyGet (indexTable ((d ++ [g]).map AtGrid.size) ++ replicate r 0) (d.length : Int) =
+      .ok (d.map AtGrid.size).sum := by
+    rw [pyGet_nat, List.getElem?_append_left (by omega), List.map_append, List.map_cons, List.map_nil,
+      indexTable_append_singleton, List.getElem?_append_left (by omega), hS]
+  have h6 : pyGet (indexTable ((d ++ [g]).map AtGrid.size) ++ replicate r 0) ((d.length : Int) + 1) =
+      .ok ((d.map AtGrid.size).sum + g.size) := by
+    rw [pyGet_succ, pyGet_nat, List.getElem?_append_left (by omega), List.map_append, List.map_cons,
+      List.map_nil, indexTable_append_singleton, List.getElem?_append_right (by omega), hT]
+    simp
+  -- 3. the slices
+  have hF : ((d.map AtGrid.segPoints).flatten).length = (d.map AtGrid.size).sum :=
+    flatten_points_length d hd
+  have hW : ((d.map AtGrid.weights).flatten).length = (d.map AtGrid.size).sum :=
+    flatten_weights_length d
+  have h7 := pySetSlice_append_replicate (d.map AtGrid.segPoints).flatten g.size z zeroRow g.points
+  rw [hF, fitSlice_points] at h7
+  have h8 := pySetSlice_append_replicate (d.map AtGrid.weights).flatten g.size z ((0 : Nat) : K) g.weights
+  have hfw : fitSlice g.size g.weights = .ok g.weights := fitSlice_self g.weights
+  rw [hW, hfw] at h8
+  unfold Gen.MolGrid.init_loop loopState
+  simp only [h1, h2, h3, h4, h5, h6, ok_bind]
+  by_cases hg : g.Fits
+  · rw [if_pos hg] at h7 ⊢
+    simp only [h7, h8, ok_bind]
+    simp [pure, Except.pure]
+  · rw [if_neg hg] at h7 ⊢
+    simp only [h7]
+    rfl
+
+
+/-- The whole loop: started behind the atoms `d` it fills in the atoms `rest`, or raises the
+`ValueError` of the first atomic grid whose points do not fit. -/
+theorem init_loop_spec [NatCast K] (zeroRow : P) (rest d : List (AtGrid P K)) (hd : ∀ g ∈ d, g.Fits) :
+    pyForEnum (fun st i atom_grid => Gen.MolGrid.init_loop i atom_grid st.1 st.2.1 st.2.2.1 st.2.2.2)
+      d.length rest (loopState zeroRow d rest.length (rest.map AtGrid.size).sum) =
+    if ∀ g ∈ rest, g.Fits then .ok (loopState zeroRow (d ++ rest) 0 0) else .error .valueError := by
+  induction rest generalizing d with
+  | nil => simp [pyForEnum_nil]
+  | cons g rest ih =>
+    have hstep := init_loop_step zeroRow d hd g rest.length (rest.map AtGrid.size).sum
+    simp only [List.length_cons, List.map_cons, List.sum_cons]
+    by_cases hg : g.Fits
+    · rw [if_pos hg] at hstep
+      rw [pyForEnum_cons_ok _ _ _ _ _ _ hstep]
+      have hd' : ∀ x ∈ d ++ [g], x.Fits := by
+        intro x hx
+        rcases List.mem_append.mp hx with hx | hx
+        · exact hd x hx
+        · rw [List.mem_singleton.mp hx]; exact hg
+      have := ih (d ++ [g]) hd'
+      rw [List.length_append, List.length_singleton] at this
+      rw [this, List.append_assoc, List.singleton_append]
+      simp [hg]
+    · rw [if_neg hg] at hstep
+      rw [pyForEnum_cons_error _ _ _ _ _ _ hstep]
+      simp [hg]
+
+
+/-- **The generated constructor is the hand model** (`MolGrid.__init__`, for every input): for
+every row `zeroRow` the zero-initialised arrays are completely overwritten — `_indices` by the
+running sums, `_atcoords` by the centres, `_points` / `_atweights` by the concatenation of the
+atomic grids —, the exceptions agree as well: no atomic grid → `TypeError` (`np.sum([])` is the
+float `0.0`, not a shape), points that do not fit their segment → `ValueError` (a *single* point
+is broadcast by NumPy, `AtGrid.segPoints`; found by experiment on the real constructor, the hand
+model said `ValueError` there before round 2), aim weights of a wrong size / type →
+`ValueError` / `TypeError`, a callable's result of a wrong length → `ValueError`. -/
+theorem gen_init_eq_model [Add K] [Mul K] [NatCast K] (zeroRow : P) (atnums : List Nat)
+    (atgrids : List (AtGrid P K)) (aim : AimArg P K) (store : Bool) :
+    Gen.MolGrid.init zeroRow atnums atgrids aim store = MolGrid.init atnums atgrids aim store := by
+  unfold Gen.MolGrid.init MolGrid.init
+  cases hne : atgrids with
+  | nil => rfl
+  | cons g0 r0 =>
+    rw [← hne]
+    have he : atgrids.isEmpty = false := by rw [hne]; rfl
+    have hsum : npSum (atgrids.map fun atomgrid => atomgrid.size) = .int (atgrids.map AtGrid.size).sum := by
+      apply npSum_ne_nil; rw [hne]; simp
+    have hloop := init_loop_spec (K := K) zeroRow atgrids [] (by simp)
+    simp only [loopState, List.map_nil, List.nil_append, List.length_nil, List.flatten_nil, indexTable,
+      prefixSums] at hloop
+    simp only [he, Bool.false_eq_true, ↓reduceIte, hsum, npZeros_int, ok_bind]
+    simp only [List.replicate_zero, List.append_nil, List.singleton_append] at hloop
+    rw [List.replicate_succ, hloop]
+    by_cases hf : ∀ g ∈ atgrids, g.Fits
+    · rw [if_pos hf, if_neg (not_not.mpr hf)]
+      simp only [ok_bind, NpNum.toNat]
+      cases aim with
+      | callable f => rfl
+      | array a =>
+        simp only
+        by_cases hl : a.length = (atgrids.map AtGrid.size).sum
+        · simp only [hl, ne_eq, not_true_eq_false, ↓reduceIte]; rfl
+        · simp only [ne_eq, hl, not_false_eq_true, ↓reduceIte]; rfl
+      | other => rfl
+    · rw [if_neg hf, if_pos hf]; rfl
+
+/-- Non-vacuity, all four outcomes on numbers: a regular molecule; one point broadcast over three
+weights; two points for three weights; no atoms. -/
+example :
+    Gen.MolGrid.init (P := Nat) (K := Nat) 0 [1, 8] [⟨[10, 11], [1, 2], 0⟩, ⟨[20], [3], 5⟩]
+      (.array [1, 0, 1]) false =
+      .ok ⟨[10, 11, 20], [1, 0, 3], [1, 2, 3], [1, 0, 1], [0, 5], [0, 2, 3], none⟩ ∧
+    (Gen.MolGrid.init (P := Nat) (K := Nat) 0 [1] [⟨[7], [1, 2, 3], 9⟩]
+      (.callable fun p _ _ i => p.map fun _ => i.length) true).toOption.map
+        (fun m => (m.points, m.weights, m.indices)) = some ([7, 7, 7], [2, 4, 6], [0, 3]) ∧
+    Gen.MolGrid.init (P := Nat) (K := Nat) 0 [1] [⟨[7, 8], [1, 2, 3], 9⟩] (.array [1, 1, 1]) false =
+      .error .valueError ∧
+    Gen.MolGrid.init (P := Nat) (K := Nat) 0 [] [] (.array []) false = .error .typeError := by
+  decide
+
+/-- The content of `np.zeros` never shows: any two zero rows give the same molecular grid. -/
+theorem gen_init_overwrites_zeros [Add K] [Mul K] [NatCast K] (z1 z2 : P) (atnums : List Nat)
+    (atgrids : List (AtGrid P K)) (aim : AimArg P K) (store : Bool) :
+    Gen.MolGrid.init z1 atnums atgrids aim store = Gen.MolGrid.init z2 atnums atgrids aim store := by
+  rw [gen_init_eq_model, gen_init_eq_model]
+
+example : Gen.MolGrid.init (P := Nat) (K := Nat) 0 [1, 1] [⟨[7], [1], 0⟩, ⟨[7, 8], [1, 3], 1⟩]
+      (.array [1, 1, 1]) true =
+    Gen.MolGrid.init (P := Nat) (K := Nat) 99 [1, 1] [⟨[7], [1], 0⟩, ⟨[7, 8], [1, 3], 1⟩]
+      (.array [1, 1, 1]) true := by
+  decide
+
+/-- **The generated `get_atomic_grid` is the hand model**, for every molecular grid value and
+every integer index (sign guard, stored / not stored, the two slices with their four index
+look-ups, `LocalGrid`'s length check). -/
+theorem gen_getAtomicGrid_eq_model (m : MolGrid P K) (index : Int) :
+    Gen.MolGrid.getAtomicGrid m index = m.getAtomicGrid index := by
+  unfold Gen.MolGrid.getAtomicGrid MolGrid.getAtomicGrid
+  by_cases hn : index < 0
+  · simp only [hn, ↓reduceIte]; rfl
+  · simp only [hn, ↓reduceIte]
+    cases m.atgrids with
+    | some gs => rfl
+    | none =>
+      simp only
+      cases pyGet m.indices index with
+      | error e => rfl
+      | ok a =>
+        cases pyGet m.indices (index + 1) with
+        | error e => rfl
+        | ok b => rfl
+
+
+/-- **The generated `__getitem__` is the hand model** (no sign guard; `self.weights`, i.e. the
+aim-weighted weights, when the grids are not stored). -/
+theorem gen_getItem_eq_model (m : MolGrid P K) (index : Int) :
+    Gen.MolGrid.getItem m index = m.getItem index := by
+  unfold Gen.MolGrid.getItem MolGrid.getItem
+  cases m.atgrids <;> rfl
+
+/-- Non-vacuity: the generated accessors on the witness molecule of `getItem_spec` (stored and not
+stored; indices inside, negative, beyond). -/
+example :
+    let m1 : MolGrid Nat Nat := ⟨[7, 7, 8], [2, 2, 6], [1, 1, 3], [2, 2, 2], [0, 1], [0, 1, 3],
+      some [⟨[7], [1], 0⟩, ⟨[7, 8], [1, 3], 1⟩]⟩
+    let m2 : MolGrid Nat Nat := { m1 with atgrids := none }
+    Gen.MolGrid.getAtomicGrid m1 1 = .ok (.atom ⟨[7, 8], [1, 3], 1⟩) ∧
+    Gen.MolGrid.getAtomicGrid m2 1 = .ok (.localGrid [7, 8] [1, 3] 1) ∧
+    Gen.MolGrid.getItem m2 1 = .ok (.localGrid [7, 8] [2, 6] 1) ∧
+    Gen.MolGrid.getItem m2 (-1) = .ok (.localGrid [] [] 1) ∧
+    Gen.MolGrid.getAtomicGrid m2 (-1) = .error .valueError ∧
+    Gen.MolGrid.getItem m2 2 = .error .indexError := by
+  decide
 
 end GridVerif.C07
